@@ -35,6 +35,7 @@ func runC05(p *eng.Prog, r *eng.Report, tier string) {
 	// C05.13 the type attribute a stanza value is sent with is the value's type: the
 	// text marshalers of the stanza type enumerations handle every constant
 	closedBitBeforeWrites(c, "C05.14")
+	handlerWriterKeepsTheLock(c, "C05.15")
 	nEnum := enumExhaustive(c, "C05.13", []string{"stanza"})
 	c.r.Floor("C05.13", "enumeration methods in package stanza", nEnum, 2)
 	c05Send(c)
@@ -583,26 +584,30 @@ func c05StanzaEncoder(c *cx) {
 		}
 		c.r.Check(id, f, "token forwarded", "every return forwards the token to the wrapped encoder", rs.Pos(), okf, "a return does not forward the token")
 	}
-	// name tables
-	want := map[string]string{
-		"isStanzaEmptySpace":   `and(or(eq(p0.Local,"iq") | eq(p0.Local,"message") | eq(p0.Local,"presence")) & or(eq(p0.Space,"") | eq(p0.Space,stanza.NSClient) | eq(p0.Space,stanza.NSServer)))`,
-		"isIQEmptySpace":       `and(eq(p0.Local,"iq") & or(eq(p0.Space,"") | eq(p0.Space,stanza.NSClient) | eq(p0.Space,stanza.NSServer)))`,
-		"isIQ":                 `and(eq(p0.Local,"iq") & or(eq(p0.Space,stanza.NSClient) | eq(p0.Space,stanza.NSServer)))`,
-		"isMessageEmptySpace":  `and(eq(p0.Local,"message") & or(eq(p0.Space,"") | eq(p0.Space,stanza.NSClient) | eq(p0.Space,stanza.NSServer)))`,
-		"isPresenceEmptySpace": `and(eq(p0.Local,"presence") & or(eq(p0.Space,"") | eq(p0.Space,stanza.NSClient) | eq(p0.Space,stanza.NSServer)))`,
+	// name tables (E-fin: exact decision tables, whatever the predicate's syntax)
+	locals := []string{"iq", "message", "presence", "", "other"}
+	spaces := []string{"", "jabber:client", "jabber:server", "other:ns"}
+	stanzaSpace := func(e predCase, empty bool) bool {
+		return e["p0.Space"] == "jabber:client" || e["p0.Space"] == "jabber:server" || (empty && e["p0.Space"] == "")
 	}
-	for name, w := range want {
-		tf := c.fn(id, "", name)
+	tables := []struct {
+		name, spec string
+		want       func(predCase) bool
+	}{
+		{"isStanzaEmptySpace", "Local in {iq, message, presence} and Space in {\"\", jabber:client, jabber:server}", func(e predCase) bool {
+			return (e["p0.Local"] == "iq" || e["p0.Local"] == "message" || e["p0.Local"] == "presence") && stanzaSpace(e, true)
+		}},
+		{"isIQEmptySpace", "Local == iq and Space in {\"\", jabber:client, jabber:server}", func(e predCase) bool { return e["p0.Local"] == "iq" && stanzaSpace(e, true) }},
+		{"isIQ", "Local == iq and Space in {jabber:client, jabber:server}", func(e predCase) bool { return e["p0.Local"] == "iq" && stanzaSpace(e, false) }},
+		{"isMessageEmptySpace", "Local == message and Space in {\"\", jabber:client, jabber:server}", func(e predCase) bool { return e["p0.Local"] == "message" && stanzaSpace(e, true) }},
+		{"isPresenceEmptySpace", "Local == presence and Space in {\"\", jabber:client, jabber:server}", func(e predCase) bool { return e["p0.Local"] == "presence" && stanzaSpace(e, true) }},
+	}
+	for _, t := range tables {
+		tf := c.fn(id, "", t.name)
 		if tf == nil {
 			continue
 		}
-		tg := tf.Graph()
-		got := ""
-		if len(tg.Returns) == 1 && len(tg.Returns[0].Results) == 1 {
-			pt, _ := tg.Where(tg.Returns[0])
-			got = tg.Formula(tg.Returns[0].Results[0], true, pt).String()
-		}
-		c.r.Check(id, tf, "name table", "T: "+name+" accepts exactly "+w, tf.Pos(), got == w, "accepts "+got)
+		predTable(c, id, tf, "name table", map[string][]string{"p0.Local": locals, "p0.Space": spaces}, t.want, t.name+" accepts exactly "+t.spec)
 	}
 }
 
@@ -863,4 +868,58 @@ func flusherNotHidden(c *cx, id string) {
 		}
 	}
 	c.r.Floor(id, "marshalling helper calls in the session", n, 2)
+}
+
+// handlerWriterKeepsTheLock (C05.15): a handler's reply is not interleaved with
+// other output because the writer it is given takes the output lock with its
+// first token and keeps it until the serve loop closes it after the handler
+// returned. Two structural conditions: (a) deferWriter.w - the lock-holding
+// writer - is stored once, under the test that it is still nil, and never
+// reset (a reset makes the next token take the lock again: whatever was
+// written in between came from somebody else); (b) no method of the writer
+// types handed to handlers (deferWriter other than its own Close,
+// responseChecker) closes or unlocks anything: the release is the serve
+// loop's.
+func handlerWriterKeepsTheLock(c *cx, id string) {
+	nw := 0
+	for _, f := range c.allFns() {
+		for _, w := range f.FieldWrites("xmpp.deferWriter.w") {
+			nw++
+			ok := f.Short == "xmpp.(*deferWriter).EncodeToken" && w.RHS != nil && strings.HasPrefix(f.Norm(w.RHS, nil), "xmpp.Session.TokenWriter[")
+			if ok {
+				c.dom(id, f, w.Stmt, "lock-holding writer stored", []string{"eq(recv.w,nil)"})
+				continue
+			}
+			c.r.Check(id, f, "lock-holding writer stored", "W: deferWriter.w is stored once, by EncodeToken, from Session.TokenWriter, and never reset", w.Stmt.Pos(), false, "deferWriter.w = "+exprOrEmpty(w.RHS)+": after a reset the next token takes the output lock again and the element is interleaved with other senders' output")
+		}
+	}
+	c.r.Floor(id, "stores to deferWriter.w", nw, 1)
+	nm := 0
+	for _, f := range c.allFns() {
+		if !(strings.HasPrefix(f.Short, "xmpp.(*responseChecker).") || strings.HasPrefix(f.Short, "xmpp.responseChecker.") || strings.HasPrefix(f.Short, "xmpp.(*deferWriter).")) || f.Short == "xmpp.(*deferWriter).Close" {
+			continue
+		}
+		nm++
+		bad := ""
+		var scan func(fn *eng.Fn)
+		scan = func(fn *eng.Fn) {
+			fn.WalkBody(func(n ast.Node) bool {
+				if cl, ok := n.(*ast.CallExpr); ok {
+					if sel, ok := ast.Unparen(cl.Fun).(*ast.SelectorExpr); ok {
+						switch sel.Sel.Name {
+						case "Close", "Unlock", "RUnlock":
+							bad = "calls " + types.ExprString(cl.Fun) + " at " + c.p.Pos(cl.Pos())
+						}
+					}
+				}
+				return true
+			})
+			for _, l := range fn.Lits {
+				scan(l)
+			}
+		}
+		scan(f)
+		c.r.Check(id, f, "writer handed to handlers releases nothing", "C: the output lock a handler's writer holds is released by the serve loop after the handler returned, never by a method of the writer itself", f.Pos(), bad == "", bad+": the rest of the handler's element is written after other senders had access to the stream")
+	}
+	c.r.Floor(id, "methods of the handler writer types", nm, 5)
 }
